@@ -56,6 +56,8 @@ where
                 {
                     println!("{{\"seNextEvent\": {}}}", next.to_json_debug());
                 }
+                #[cfg(feature = "verif-hooks")]
+                crate::verif_hooks::set_site(0);
                 if possible_intersection(&event, next, event_queue) == 2 {
                     // Recompute fields for current segment and the one above (in bottom to top order)
                     compute_fields(&event, maybe_prev, operation);
@@ -68,6 +70,8 @@ where
                 {
                     println!("{{\"sePrevEvent\": {}}}", prev.to_json_debug());
                 }
+                #[cfg(feature = "verif-hooks")]
+                crate::verif_hooks::set_site(1);
                 if possible_intersection(prev, &event, event_queue) == 2 {
                     let maybe_prev_prev = sweep_line.prev(prev);
                     // Recompute fields for current segment and the one below (in bottom to top order)
@@ -82,6 +86,10 @@ where
                 sweep_line.contains(&other_event),
                 "Sweep line misses event to be removed"
             );
+            #[cfg(feature = "verif-hooks")]
+            if !sweep_line.contains(&other_event) {
+                crate::verif_hooks::path(7);
+            }
             if sweep_line.contains(&other_event) {
                 let maybe_prev = sweep_line.prev(&other_event).cloned();
                 let maybe_next = sweep_line.next(&other_event).cloned();
@@ -93,6 +101,8 @@ where
                         println!("{{\"sePostNextEvent\": {}}}", next.to_json_debug());
                         println!("{{\"sePostPrevEvent\": {}}}", prev.to_json_debug());
                     }
+                    #[cfg(feature = "verif-hooks")]
+                    crate::verif_hooks::set_site(2);
                     possible_intersection(&prev, &next, event_queue);
                 }
 
